@@ -134,8 +134,9 @@ def concrete(binary, name, seed, items, tmp, tag):
 # ------------------------------------------------------------------------------------------
 KANI_SRC = os.path.join(VERIF, "kani", "intprops")
 KANI_DIR = KANI_SRC if not ALT else os.path.join(ALT, "kani", "intprops")
-KANI_QUICK = ["checked_add", "checked_sub", "add_op", "sub_op", "unary", "cmp", "mul_div_small"]
-KANI_THOROUGH = KANI_QUICK + ["checked_mul"]
+# (checked_mul over all 2^258 operand pairs takes ~150 s; it runs in parallel with the others)
+KANI_QUICK = ["checked_add", "checked_sub", "add_op", "sub_op", "unary", "cmp", "mul_div_small", "checked_mul"]
+KANI_THOROUGH = KANI_QUICK
 REPLAY_BIN = os.path.join(BUILD_T, "kani-native", "debug", "replay")
 
 
